@@ -545,6 +545,70 @@ def unused_parameters(model, R, scope):
     R.ok('UNUSED-PARAMETER', 'examined functions', 'concepts/', f'{n} parameters scanned')
 
 
+def signature_order(model, R, scope):
+    """Public functions keep the positional order of the parameters they have today (frozen table pinned_signatures.json):
+    callers pass them by position.  New parameters may only follow the existing positional ones (or be keyword-only).
+    Private helpers (leading underscore) are exempt: their call sites are all in the package and are checked as they are."""
+    from .normalize import PINNED_SIGNATURES
+    n = 0
+    for func in scope:
+        if func.parent is not None or (func.name.startswith('_') and not (func.name.startswith('__') and func.name.endswith('__'))):
+            continue
+        pinned = PINNED_SIGNATURES.get(func.key)
+        if pinned is None:
+            continue
+        node = func.orig if getattr(func, 'orig', None) is not None else func.node
+        a = node.args
+        now = [x.arg for x in a.posonlyargs + a.args]
+        kwonly = {x.arg for x in a.kwonlyargs}
+        old_pos = [p for p in pinned if p in now]                 # pinned parameters that are still positional
+        n += 1
+        kept = [p for p in now if p in pinned]
+        reordered = kept != old_pos
+        inserted = [p for i, p in enumerate(now) if p not in pinned and any(q in pinned for q in now[i + 1:])]
+        if reordered or inserted:
+            R.bad('SIGNATURE-ORDER', func, node, f'{func.name}: positional parameters keep their documented order',
+                  '(' + ', '.join(p for p in pinned if p not in kwonly) + ')', '(' + ', '.join(now) + ')',
+                  extra={'consequence': 'a caller passing arguments by position in the documented order now binds them to other parameters'})
+    R.ok('SIGNATURE-ORDER', 'examined functions', 'concepts/', f'{n} public signatures compared with the frozen table')
+
+
+def bitlength_index(model, R, scope):
+    """``seq[x.bit_length() - 1]``: for x == 0 the index is -1, silently the *last* element.  The subscript must sit on a path
+    that tests x (truthiness, ``x != 0``, ``x > 0``) or x must be a value that cannot be 0 (``x & -x`` of a tested value)."""
+    from .astutil import context_of
+    n = 0
+    for func in scope:
+        for sub in walk(func.body):
+            if not isinstance(sub, ast.Subscript):
+                continue
+            idx = sub.slice
+            if not (isinstance(idx, ast.BinOp) and isinstance(idx.op, ast.Sub) and isinstance(idx.right, ast.Constant) and idx.right.value == 1
+                    and isinstance(idx.left, ast.Call) and isinstance(idx.left.func, ast.Attribute) and idx.left.func.attr == 'bit_length' and not idx.left.args):
+                continue
+            n += 1
+            x = idx.left.func.value
+            ctx = context_of(func.body, sub)
+            tested = False
+            for c in ctx or []:
+                if c[0] in ('if', 'guard', 'while'):
+                    t = c[1]
+                    pol = c[2] if len(c) > 2 else True
+                    inner = t.operand if isinstance(t, ast.UnaryOp) and isinstance(t.op, ast.Not) else t
+                    neg = inner is not t
+                    if src(inner) == src(x) and (pol != neg):
+                        tested = True
+                    if isinstance(t, ast.Compare) and src(t.left) == src(x) and pol and isinstance(t.ops[0], (ast.NotEq, ast.Gt)) and const_is(t.comparators[0], 0):
+                        tested = True
+            R.decided(tested, 'NEGATIVE-INDEX', func, sub, f'{src(x)} is known to be non-zero where {src(sub)[:50]} is evaluated', f'a test of {src(x)} on the path',
+                      'no such test' if not tested else '', extra={'consequence': 'for 0 the index is -1: the last element is used silently'} if not tested else None)
+    R.ok('NEGATIVE-INDEX', 'examined functions', 'concepts/', f'{n} bit_length()-1 subscripts scanned')
+
+
+def const_is(node, value):
+    return isinstance(node, ast.Constant) and node.value == value and not isinstance(node.value, bool)
+
+
 def run(model, R):
     """Generic rules over exactly the functions the property's own rules examined (and their nested functions), so a
     defect elsewhere in the same module is reported by the property it belongs to and by no other."""
@@ -580,3 +644,5 @@ def run(model, R):
     mutate_while_iterating(model, R, scope)
     one_shot(model, R, scope)
     unused_parameters(model, R, scope)
+    bitlength_index(model, R, scope)
+    signature_order(model, R, scope)
